@@ -19,6 +19,9 @@ import (
 type vgCfg struct {
 	Zone    string `json:"zone"`    // "" = whatever the process has (TZ environment variant)
 	Instant string `json:"instant"` // RFC3339, UTC: the clock when the first update is produced
+	// Clients > 1: the operations are issued by that many goroutines under the
+	// seeded scheduler; the signer and the filesystem are the yield points.
+	Clients int `json:"clients,omitempty"`
 }
 
 // vgOp produces one signed update. Several updates of one run stay alive until
@@ -29,6 +32,8 @@ type vgOp struct {
 	Val     ValSpec `json:"val"`
 	Key     int     `json:"key"`
 	Advance int     `json:"advance_s,omitempty"` // simulated seconds that pass before this operation
+	C       int     `json:"c,omitempty"`         // issuing client (interleaved runs)
+	DelayMs int     `json:"signer_delay_ms,omitempty"` // simulated latency of the signing device
 }
 
 type varsignEngine struct{ tz bool }
@@ -177,16 +182,34 @@ func (e *varsignEngine) Gen(seed uint64, tier string, run int) *Trace {
 	if r.Chance(1, 3) {
 		n = r.Range(2, 4)
 	}
+	mode := r.Intn(8)
+	if mode == 0 {
+		c.Clients = r.Range(2, 3)
+		n = r.Range(c.Clients, c.Clients+2)
+	}
 	var ops []vgOp
 	for i := 0; i < n; i++ {
 		op := genVgOp(r.Fork(fmt.Sprint("op", i)))
-		if i > 0 && r.Bool() {
+		if i > 0 && r.Bool() && c.Clients <= 1 {
 			op.Advance = Pick(r, []int{1, 59, 60, 3599, 3600, 86399, 86400, r.Intn(1000000)})
+		}
+		if r.Chance(1, 4) {
+			op.DelayMs = Pick(r, []int{1, 400, 999, 1000, 1100, 2500, 61000, 3600000})
+		}
+		if c.Clients > 1 {
+			op.C = i % c.Clients
 		}
 		ops = append(ops, op)
 	}
+	var sw []Switch
+	if c.Clients > 1 {
+		gap := Pick(r, []int{1, 1, 2})
+		for y := r.Intn(gap + 1); y < 12*n; y += 1 + r.Intn(2*gap) {
+			sw = append(sw, Switch{Yield: y, Next: r.Intn(c.Clients)})
+		}
+	}
 	return &Trace{Property: "C06", Engine: e.Name(), Seed: seed, Run: run, Tier: tier,
-		Cfg: mustJSON(c), Ops: rawList(ops), Faults: []json.RawMessage{}, Schedule: []json.RawMessage{}}
+		Cfg: mustJSON(c), Ops: rawList(ops), Faults: []json.RawMessage{}, Schedule: rawList(sw)}
 }
 
 var pkcs7GUIDWire = []byte{0x9d, 0xd2, 0xaf, 0x4a, 0xdf, 0x68, 0xee, 0x49, 0x8a, 0xa9, 0x34, 0x7d, 0x37, 0x56, 0x65, 0xa7}
@@ -209,32 +232,64 @@ func (e *varsignEngine) Exec(tr *Trace, x *X) {
 		harnessf("varsign instant: %v", err)
 	}
 	at = at.UTC()
+	sw, err := unrawList[Switch](tr.Schedule)
+	if err != nil {
+		harnessf("varsign schedule: %v", err)
+	}
 	if pv := inBubble(x.T, at, c.Zone, func() {
 		type alive struct {
 			i    int
 			op   vgOp
 			m    interface{ Bytes() []byte }
 			b    []byte
-			at   time.Time
 			kind string
 		}
 		var live []alive
-		for i, op := range ops {
-			if x.Failed() {
-				return
-			}
+		plane := NewPlane(nil)
+		one := func(i int, op vgOp) {
 			if op.Advance > 0 {
 				time.Sleep(time.Duration(op.Advance) * time.Second)
 			}
 			now := time.Now().UTC()
-			if now.After(simMaxInstant) {
+			if now.Add(time.Duration(op.DelayMs) * time.Millisecond).After(simMaxInstant) {
 				x.Logf("op %d skipped: simulated clock past %s", i, simMaxInstant.Format(time.RFC3339))
-				continue
+				return
 			}
 			x.Sim(now.Unix())
-			m, b := vgExec(c, op, i, now, x)
+			m, b := vgExec(c, op, i, plane, x)
 			if b != nil {
-				live = append(live, alive{i, op, m, b, now, op.Op})
+				live = append(live, alive{i, op, m, b, op.Op})
+			}
+		}
+		if c.Clients > 1 {
+			sched := NewSched(x, c.Clients, sw)
+			plane.yield = sched.Yield
+			bodies := make([]func(), c.Clients)
+			for cl := 0; cl < c.Clients; cl++ {
+				cl := cl
+				bodies[cl] = func() {
+					for i, op := range ops {
+						if op.C%c.Clients != cl || x.Failed() {
+							continue
+						}
+						one(i, op)
+					}
+				}
+			}
+			sched.Run(bodies)
+			plane.yield = nil
+			x.SchedKey = sched.key()
+			x.Probes["yields"] += sched.nyield
+			x.Probes["context_switches"] += len(sched.Switches)
+			if len(sched.Switches) > 0 {
+				x.Probe("interleaved_signers")
+			}
+		} else {
+			for i, op := range ops {
+				if x.Failed() {
+					return
+				}
+				one(i, op)
 			}
 		}
 		// every update produced in this run is still the same byte string
@@ -247,7 +302,7 @@ func (e *varsignEngine) Exec(tr *Trace, x *X) {
 			}
 			again := l.m.Bytes()
 			if !bytes.Equal(again, l.b) {
-				x.Fail("varsign.update_stays_valid", l.i, l.kind, "update %d of this run read back at the end of the run differs from what it was when produced (%s vs %s); %d update(s) were produced after it", l.i, shortHex(again), shortHex(l.b), len(live)-1)
+				x.Fail("varsign.update_stays_valid", l.i, l.kind, "update %d of this run read back at the end of the run differs from what it was when produced (%s vs %s); %d update(s) were produced in this run", l.i, shortHex(again), shortHex(l.b), len(live))
 				return
 			}
 			if len(live) > 1 {
@@ -261,11 +316,13 @@ func (e *varsignEngine) Exec(tr *Trace, x *X) {
 
 // vgExec produces one update and judges it. It returns the Marshallable (when
 // the API hands one out) and the bytes.
-func vgExec(c vgCfg, op vgOp, i int, at time.Time, x *X) (interface{ Bytes() []byte }, []byte) {
+func vgExec(c vgCfg, op vgOp, i int, plane *Plane, x *X) (interface{ Bytes() []byte }, []byte) {
 	v := op.Var.Var()
 	payload := op.Val.Bytes()
 	pk := Pool()[op.Key%poolSize]
 	kind := op.Op
+	signer := &SimSigner{inner: pk.Key, p: plane, Delay: time.Duration(op.DelayMs) * time.Millisecond}
+	at := time.Now().UTC()
 	zname, zoff := time.Now().Zone()
 	x.Logf("op %d zone=%q (process sees %s%+d) instant=%s var=%s payload=%s key=k%d api=%s", i, c.Zone, zname, zoff, at.Format(time.RFC3339), op.Var.String(), shortHex(payload), op.Key, op.Op)
 	if zoff != 0 {
@@ -288,19 +345,18 @@ func vgExec(c vgCfg, op vgOp, i int, at time.Time, x *X) (interface{ Bytes() []b
 		defer func() { pv = recover() }()
 		switch op.Op {
 		case "SignEFIVariable":
-			_, mm, e2 := signature.SignEFIVariable(v, rawVal(payload), pk.Key, pk.Cert)
+			_, mm, e2 := signature.SignEFIVariable(v, rawVal(payload), signer, pk.Cert)
 			err = e2
 			if mm != nil {
 				keep = mm
 				out = mm.Bytes()
 			}
 		case "WriteSignedUpdate":
-			plane := NewPlane(nil)
 			sfs := NewSimFs(afero.NewMemMapFs(), plane, nil)
 			wr := fswrapper.NewMemoryWrapper()
 			wr.SetFS(sfs)
 			api := efivarfs.Open(&efivarfs.EFIFS{FSWrapper: wr})
-			err = api.WriteSignedUpdate(v, rawVal(payload), pk.Key, pk.Cert)
+			err = api.WriteSignedUpdate(v, rawVal(payload), signer, pk.Cert)
 			for _, ev := range sfs.Events {
 				if ev.Call == cWrite && len(ev.Buf) >= 4 {
 					out = ev.Buf[4:]
@@ -330,14 +386,28 @@ func vgExec(c vgCfg, op vgOp, i int, at time.Time, x *X) (interface{ Bytes() []b
 		fail("varsign.layout", "update has %d bytes, a descriptor needs 40", len(b))
 		return nil, nil
 	}
-	// --- 16-byte EFI_TIME: the simulated instant, in UTC ---
-	want := make([]byte, 16)
-	binary.LittleEndian.PutUint16(want[0:], uint16(at.Year()))
-	want[2], want[3], want[4], want[5], want[6] = byte(at.Month()), byte(at.Day()), byte(at.Hour()), byte(at.Minute()), byte(at.Second())
-	if !bytes.Equal(b[:16], want) {
+	// --- 16-byte EFI_TIME: the simulated clock during the call, in UTC ---
+	end := time.Now().UTC()
+	if end.Sub(at) >= time.Second {
+		x.Probe("clock_ticked_during_signing")
+	}
+	okTime := false
+	for t := at.Truncate(time.Second); !t.After(end); t = t.Add(time.Second) {
+		want := make([]byte, 16)
+		binary.LittleEndian.PutUint16(want[0:], uint16(t.Year()))
+		want[2], want[3], want[4], want[5], want[6] = byte(t.Month()), byte(t.Day()), byte(t.Hour()), byte(t.Minute()), byte(t.Second())
+		if bytes.Equal(b[:16], want) {
+			okTime = true
+			break
+		}
+		if end.Sub(at) > 2*time.Hour && t.Sub(at) > 2*time.Second && end.Sub(t) > 3*time.Second {
+			t = end.Add(-3 * time.Second).Truncate(time.Second) // long latency: only the edges of the window are plausible
+		}
+	}
+	if !okTime {
 		got := fmt.Sprintf("%04d-%02d-%02d %02d:%02d:%02d pad1=%d ns=%d tz=%d dl=%d pad2=%d", binary.LittleEndian.Uint16(b), b[2], b[3], b[4], b[5], b[6], b[7],
 			binary.LittleEndian.Uint32(b[8:]), int16(binary.LittleEndian.Uint16(b[12:])), b[14], b[15])
-		fail("varsign.timestamp_is_utc_now", "descriptor time %s, simulated clock says %s UTC (process zone %s%+ds)", got, at.Format("2006-01-02 15:04:05"), zname, zoff)
+		fail("varsign.timestamp_is_utc_now", "descriptor time %s, simulated clock was %s .. %s UTC during the call (process zone %s%+ds)", got, at.Format("2006-01-02 15:04:05"), end.Format("15:04:05"), zname, zoff)
 		return nil, nil
 	}
 	// --- WIN_CERTIFICATE_UEFI_GUID header ---
